@@ -143,6 +143,8 @@ class EBB3:
         if len(ebb_version_string) > 1:
             ebb_version_string = ebb_version_string[1]
         else:
+            self.version = None         # Forget any version known from an earlier connection.
+            self.version_parsed = None
             return # ebb_version_string is not a reasonable version number.
 
         ebb_version_string = ebb_version_string.strip()  # Stripped copy, for number comparisons
